@@ -772,7 +772,7 @@ def run(rep: C.Report) -> None:
         rep,
         HL,
         {
-            "^loop_": dict(name="Ob4 loop detector == 'tail is a pattern repeated >= 2 times not starting with an ARGVAL- frame'", functions=["core.py:detect_expand_template_loop"], bounds=f"stacks of 2..{5 if quick else 6} entries over 4 frame names (2 templates, ARGVAL-, TEMPLATE_NAME); entries are symbolic ints decoded to names, i.e. the solver drives an exhaustive case split (4^n cases)"),
+            "^loop_": dict(name="Ob4 loop detector == 'tail is a pattern repeated >= 2 times not starting with an ARGVAL- frame'", functions=["core.py:detect_expand_template_loop"], bounds=f"stacks of 2..{5 if quick else 6} entries over 5 frame names (2 templates, ARGVAL-1, ARGVAL-x, TEMPLATE_NAME); entries are symbolic ints decoded to names, i.e. the solver drives an exhaustive case split (5^n cases)"),
         },
         timeout=150 if quick else 900,
         twins=False,
